@@ -214,7 +214,7 @@ func callsDirectAny(f *core.Func, nameContains string) bool {
 
 func c18(c *core.Ctx) {
 	p := c.P
-	c.Explain = "Static necessary conditions for 'at most one live instance per swamp': a swamp is created and stored into the live map only inside SummonSwamp's ownership region (between taking and releasing the per-name waiter); the per-name waiter slot is removed only when a reference count reaches zero, so increments and decrements of that count must balance on every path through SummonSwamp. The pinned tree does not balance them (the owner never increments, a waiter increments once per wake-up, everyone decrements once): the slot can be deleted while a waiter still uses it and a later caller gets a fresh waiter - two owners at once. Recorded as a known finding with a runtime demonstration."
+	c.Explain = "Static necessary conditions for 'at most one live instance per swamp': a swamp is created and stored into the live map only inside SummonSwamp's ownership region (between taking and releasing the per-name waiter); the per-name waiter slot is removed only when a reference count reaches zero, so the count must change by exactly +1 and -1 on every path through SummonSwamp (finite path-balance analysis over the CFG including the deferred release), the waiter's fields are touched only under its lock, the deletion is guarded by count==0 and marks the waiter retired, and a caller tests 'retired' under the lock before taking its reference (LoadOrStore and Lock are not atomic). The pinned tree violated the balance (owner never counted, waiters counted once per wake-up); repaired by a fix: commit, see known_findings.json."
 	c.NotCovered = []string{"mutual exclusion of owners over real interleavings", "two hydra processes on one data directory"}
 
 	sum := c.Fn(pkgHydra + ".hydra.SummonSwamp")
@@ -259,58 +259,158 @@ func c18(c *core.Ctx) {
 		rW.Check(ok, sum.Key+":create-inside-ownership", sum.Decl.Pos(), "creation dominated by taking the waiter", "the swamp is created before the per-name waiter is owned")
 	}
 
-	rR := c.Rule("C18.refcount", "the waiter's reference count is incremented exactly once on every path that reaches the deferred decrement (whose zero test deletes the per-name slot)", 1)
+	rR := c.Rule("C18.refcount", "the per-name waiter slot is removed only when its reference count reaches zero: on every path through SummonSwamp the count is incremented exactly once and decremented exactly once (directly before an early return, or by the deferred release registered on that path); count/retired/ready are touched only under the waiter's lock (or atomically); the slot deletion is guarded by count==0 and marks the waiter retired in the same critical section; a caller checks 'retired' under the lock before it takes its reference", 5)
 	{
 		countF := p.MustField(pkgHydra, "SwampWaiter", "count")
+		slotsF := p.MustField(pkgHydra, "hydra", "summoningSwamps")
 		fl := core.NewFlow(p, info, sum.Decl.Body)
-		var incs []core.Access
-		var dec *core.Access
+		isLit := func(n ast.Node) bool {
+			return core.BodyContaining(sum.Decl, n) != sum.Decl.Body
+		}
+		var incs, decs, dels []core.Access
 		for _, body := range core.Bodies(sum.Decl) {
-			for _, a := range core.Accesses(info, body, map[*types.Var]bool{countF: true}, false) {
-				a := a
+			for _, a := range core.Accesses(info, body, map[*types.Var]bool{countF: true, slotsF: true}, false) {
 				if !a.Write {
 					continue
 				}
-				if a.Form == "add+" || a.Form == "incdec+" {
+				switch {
+				case a.Field == countF && (a.Form == "add+" || a.Form == "incdec+"):
 					incs = append(incs, a)
-				}
-				if a.Form == "add-" || a.Form == "incdec-" {
-					dec = &a
+				case a.Field == countF && (a.Form == "add-" || a.Form == "incdec-"):
+					decs = append(decs, a)
+				case a.Field == countF:
+					rR.Bad(sum.Key+":waiter.count:"+a.Form, a.Node.Pos(), "the reference count is written by something other than +1/-1")
+				case a.Field == slotsF && (a.Form == "method:Delete" || a.Form == "method:LoadAndDelete" || a.Form == "method:Clear" || a.Form == "method:CompareAndDelete"):
+					dels = append(dels, a)
 				}
 			}
 		}
-		if dec == nil {
-			rR.Ok(sum.Key+":waiter.count", sum.Decl.Pos(), "no reference-counted slot deletion")
+		if len(dels) == 0 {
+			rR.Ok(sum.Key+":waiter.count", sum.Decl.Pos(), "the per-name slot is never deleted: no reference counting needed")
 		} else {
-			// the defer statement that holds the decrement
-			var deferStmt *ast.DeferStmt
-			ast.Inspect(sum.Decl.Body, func(x ast.Node) bool {
-				if d, ok := x.(*ast.DeferStmt); ok && d.Pos() <= dec.Node.Pos() && dec.Node.End() <= d.End() {
-					deferStmt = d
-				}
-				return true
-			})
-			balanced := false
-			why := "decrement is not deferred"
-			if deferStmt != nil {
-				ld := fl.MustLocate(deferStmt)
-				// exactly once: some increment dominates the defer, and no increment sits in a loop (can repeat)
-				dom, inLoop := false, false
-				for _, inc := range incs {
-					if li, ok := fl.Locate(inc.Node); ok {
-						if fl.Dominates(li, ld) {
-							dom = true
+			// (1) path balance over the CFG of the function body
+			var deferDec *ast.DeferStmt
+			nDeferDec := 0
+			for _, d := range decs {
+				if isLit(d.Node) {
+					ast.Inspect(sum.Decl.Body, func(x ast.Node) bool {
+						if ds, ok := x.(*ast.DeferStmt); ok && ds.Pos() <= d.Node.Pos() && d.Node.End() <= ds.End() {
+							deferDec = ds
+							nDeferDec++
 						}
-						if again, _ := fl.CanReach(li, nil, nil, core.ContainsNode(inc.Node)); again {
-							inLoop = true
+						return true
+					})
+				}
+			}
+			for _, a := range append(append([]core.Access{}, incs...), decs...) {
+				if isLit(a.Node) && !(deferDec != nil && deferDec.Pos() <= a.Node.Pos() && a.Node.End() <= deferDec.End()) {
+					rR.Bad(sum.Key+":waiter.count:in-literal", a.Node.Pos(), "the reference count is changed inside a function literal that is not the deferred release: not analysable")
+				}
+			}
+			delta := func(n ast.Node) (d int, reg bool) {
+				if ds, ok := n.(*ast.DeferStmt); ok {
+					return 0, ds == deferDec
+				}
+				for _, a := range incs {
+					if !isLit(a.Node) && n.Pos() <= a.Node.Pos() && a.Node.End() <= n.End() {
+						d++
+					}
+				}
+				for _, a := range decs {
+					if !isLit(a.Node) && n.Pos() <= a.Node.Pos() && a.Node.End() <= n.End() {
+						d--
+					}
+				}
+				return d, false
+			}
+			bad := core.PathBalance(fl, delta, nDeferDec)
+			if len(bad) == 0 {
+				rR.Ok(sum.Key+":waiter.count:balance", sum.Decl.Pos(), "every path: +1 once, -1 once")
+			}
+			seenPos := map[token.Pos]bool{}
+			for _, b := range bad {
+				if seenPos[b.Pos] {
+					continue
+				}
+				seenPos[b.Pos] = true
+				rR.Bad(sum.Key+":waiter.count:balance", b.Pos, "unbalanced reference count on a path to this exit ("+b.Why+"): the count reaches zero - and the per-name slot is deleted - while another caller still uses the waiter (or never reaches zero); a later caller then creates a new waiter and both become owners (two live instances appending to one file)")
+			}
+			// (2) lock discipline for plain (non-atomic) accesses of the waiter's fields
+			wfields := map[*types.Var]bool{countF: true, p.MustField(pkgHydra, "SwampWaiter", "ready"): true}
+			if rf := core.StructFields(mustStruct(p, pkgHydra, "SwampWaiter"))["retired"]; rf != nil {
+				wfields[rf] = true
+			}
+			for _, body := range core.Bodies(sum.Decl) {
+				bfl := core.NewFlow(p, info, body)
+				lk := bfl.LockAnalysis(core.LockSet{})
+				for _, a := range core.Accesses(info, body, wfields, false) {
+					if strings.HasPrefix(a.Form, "add") || a.Form == "store" || a.Form == "cas" || a.Form == "swap" {
+						continue // atomic
+					}
+					if call, isCall := a.Node.(*ast.CallExpr); isCall {
+						if _, at := core.AtomicCall(info, call); at {
+							continue
+						}
+					}
+					held, ok := lk.HeldAtNode(a.Node)
+					want := core.ExprStr(a.Sel.X) + ".cond.L"
+					rR.Check(ok && held[want] == 2, sum.Key+":"+a.Field.Name()+":"+a.Form+":locked", a.Node.Pos(), "under "+want, "waiter."+a.Field.Name()+" is accessed ("+a.Form+") without holding "+want)
+				}
+			}
+			// (3) deletion guarded by count == 0 and marks the waiter retired; (4) retired tested before the reference is taken
+			retiredF := core.StructFields(mustStruct(p, pkgHydra, "SwampWaiter"))["retired"]
+			for _, d := range dels {
+				body := core.BodyContaining(sum.Decl, d.Node)
+				bfl := core.NewFlow(p, info, body)
+				l, ok := bfl.Locate(d.Node)
+				zero := false
+				if ok {
+					for _, f := range bfl.FactsAt(l) {
+						if be, isBin := f.Expr.(*ast.BinaryExpr); isBin && core.FieldOf(info, be.X) == countF {
+							if v, isC := core.ConstInt(info, be.Y); isC && v == 0 && (be.Op == token.EQL) == f.Truth && (be.Op == token.EQL || be.Op == token.NEQ) {
+								zero = true
+							}
+							if v, isC := core.ConstInt(info, be.Y); isC && v == 0 && be.Op == token.LEQ && f.Truth {
+								zero = true
+							}
+						}
+						if call, isCall := f.Expr.(*ast.BinaryExpr); isCall && f.Truth && call.Op == token.EQL {
+							if c2, isC2 := core.Unparen(call.X).(*ast.CallExpr); isC2 && core.MentionsField(info, c2, countF) {
+								if v, isC := core.ConstInt(info, call.Y); isC && v == 0 {
+									zero = true
+								}
+							}
 						}
 					}
 				}
-				balanced = dom && !inLoop
-				why = "incrementDominatesDefer=" + b2s(dom) + " incrementInsideLoop=" + b2s(inLoop)
+				rR.Check(zero, sum.Key+":slot-delete:guarded-by-zero", d.Node.Pos(), "deleted only when count == 0", "the per-name waiter slot is deleted without a dominating count == 0 test")
+				marked := false
+				if retiredF != nil && ok {
+					for _, a := range core.Accesses(info, body, map[*types.Var]bool{retiredF: true}, false) {
+						if a.Write && a.Form == "assign-true" {
+							if la, ok2 := bfl.Locate(a.Node); ok2 && la.B == l.B {
+								marked = true
+							}
+						}
+					}
+				}
+				rR.Check(marked, sum.Key+":slot-delete:marks-retired", d.Node.Pos(), "retired=true next to the deletion", "the slot is deleted without marking the waiter retired in the same branch: a caller that loaded the waiter before the deletion becomes owner of an orphaned waiter while a new caller owns a fresh one")
 			}
-			rR.Check(balanced, sum.Key+":waiter.count", dec.Node.Pos(), "one increment per decrement on every path",
-				"unbalanced reference count ("+why+"): the owner decrements without having incremented and a waiter increments once per wake-up, so the count reaches zero - and the per-name slot is deleted - while another caller still waits on it; the next caller creates a new waiter and both become owners (two live instances appending to one file)")
+			for _, inc := range incs {
+				if isLit(inc.Node) {
+					continue
+				}
+				li, _ := fl.Locate(inc.Node)
+				tested := false
+				if retiredF != nil {
+					for _, f := range fl.FactsAt(li) {
+						if core.FieldOf(info, f.Expr) == retiredF && !f.Truth {
+							tested = true
+						}
+					}
+				}
+				rR.Check(tested, sum.Key+":take-reference:not-retired", inc.Node.Pos(), "reference taken only on a waiter that is not retired", "the reference is taken without a dominating !retired test: the waiter may already have been removed from the slot map (LoadOrStore and the lock are not atomic)")
+			}
 		}
 	}
 }
